@@ -1,13 +1,14 @@
 #!/bin/bash
 # usage: tools/seed_sweep.sh [seed ids...]   — every stored seeded change against the quick check of its property, 4 at a time,
 # each in its own scratch worktree and scratch area; prints one line per seed (CAUGHT with a failing input / only no-failing-input-found / MISSED)
-cd /verif
+V=${VERIF_HOME:-/verif}; cd $V
 IDS=${@:-$(ls seeded)}
 one() {
+  V=${VERIF_HOME:-/verif}
   id=$1; prop=${id:0:3}; W=/tmp/wseed_$id
   git -C /repo worktree remove --force $W >/dev/null 2>&1
   git -C /repo worktree add -q --detach $W HEAD || { echo "$id worktree-failed"; return; }
-  git -C $W apply /verif/seeded/$id/patch.diff || { echo "$id patch-failed"; git -C /repo worktree remove --force $W; return; }
+  git -C $W apply $V/seeded/$id/patch.diff || { echo "$id patch-failed"; git -C /repo worktree remove --force $W; return; }
   out=$(VERIF_BUILD=/tmp/vbuild_seed_$id VERIF_REPO=$W ./check $prop --tier quick 2>&1)
   hard=$(echo "$out" | grep VIOLATION | grep -vc no-failing-input-found)
   soft=$(echo "$out" | grep -c no-failing-input-found)
